@@ -735,9 +735,11 @@ func callerEmptiedTarget(c *Ctx, call ssa.CallInstruction) (bool, string) {
 	if und || !ok {
 		return false, "copier.copy reaches copyFile without a checked ensureEmptyFileTarget"
 	}
-	for _, cs := range c.P.CallGraph().Callers(call.Parent()) {
-		if !c.P.IsTestFile(cs.Pos()) && !c.onlyIn(cs, c.name(cp)) {
-			return false, c.name(call.Parent()) + " is also called from " + c.name(cs.Parent())
+	for _, a := range c.P.Anchors(call.Parent()) { // (the call may sit in a helper split off from copyFile)
+		for _, cs := range c.P.CallGraph().Callers(a) {
+			if !c.P.IsTestFile(cs.Pos()) && !c.onlyIn(cs, c.name(cp)) {
+				return false, c.name(a) + " is also called from " + c.name(cs.Parent())
+			}
 		}
 	}
 	return true, ""
